@@ -54,6 +54,7 @@ pub fn gen_history(r: &mut Rng, nsteps: usize, mode: u32) -> Vec<Step> {
     // (open findings, witnesses in corpus/C15): it is only generated before any of these happened
     let mut ids_disturbed = false;
     let mut dropped_once = false;
+    let mut column_dropped_once = false;
     let mut had_rows: std::collections::BTreeSet<String> = Default::default();
     for _ in 0..nsteps {
         let existing: Vec<String> = m.tables.keys().cloned().collect();
@@ -116,7 +117,11 @@ pub fn gen_history(r: &mut Rng, nsteps: usize, mode: u32) -> Vec<Step> {
             ids_disturbed = true;
             had_rows.remove(&tn);
             steps.push(Step::Raw(format!("SELECT * FROM {}", tn), false));
-        } else if k < 8 && mode == 1 && t.cols.len() > 2 && !had_rows.contains(&tn) && t.uniques.is_empty() && std::env::var("AXV_C15_DROP").is_ok() {
+        } else if k < 8 && mode == 1 && t.cols.len() > 2 && !had_rows.contains(&tn) && t.uniques.is_empty() && (std::env::var("AXV_C15_DROP").is_ok() || !column_dropped_once) {
+            // clean stratum: ONE DROP COLUMN per history, on a table that never held a row (several ALTERs, or a
+            // populated table, are open findings covered by witnesses)
+            column_dropped_once = true;
+            report::count("steps.drop_column_on_empty_table", 1);
             // not sampled either: repeated ALTER TABLE rewrites of the catalog row damage the meta table (witness drop_column_then_inserts)
             // open finding: DROP COLUMN on a populated table leaves the stored rows in the old shape (witness in corpus/C15)
             let cands: Vec<usize> = (1..t.cols.len()).filter(|i| !t.uniques.iter().any(|u| u.contains(i))).collect();
